@@ -96,7 +96,7 @@ Avtp_AcfMsgType_t Avtp_Vss_GetAcfMsgType(Avtp_Vss_t* pdu) {
     return GET_FIELD(AVTP_VSS_FIELD_ACF_MSG_TYPE);
 }
 
-uint8_t Avtp_Vss_GetAcfMsgLength(Avtp_Vss_t* pdu) {
+uint16_t Avtp_Vss_GetAcfMsgLength(Avtp_Vss_t* pdu) {
     return GET_FIELD(AVTP_VSS_FIELD_ACF_MSG_LENGTH);
 }
 
@@ -375,7 +375,7 @@ void Avtp_Vss_SetAcfMsgType(Avtp_Vss_t* pdu, Avtp_AcfMsgType_t val) {
     SET_FIELD(AVTP_VSS_FIELD_ACF_MSG_TYPE, val);
 }
 
-void Avtp_Vss_SetAcfMsgLength(Avtp_Vss_t* pdu, uint8_t val) {
+void Avtp_Vss_SetAcfMsgLength(Avtp_Vss_t* pdu, uint16_t val) {
     SET_FIELD(AVTP_VSS_FIELD_ACF_MSG_LENGTH, val);
 }
 
